@@ -438,6 +438,8 @@ class RestAPI(object):
                 https://docs.aws.amazon.com/AmazonCloudWatch/latest/logs/iam-access-control-overview-cwl.html
                 """
                 logging_configuration = params.get("loggingConfiguration", {})
+                if not isinstance(logging_configuration, dict):
+                    return aws_error("InvalidLoggingConfiguration"), 400
                 # Explicitly set default to OFF if not present in request.
                 logging_level = logging_configuration.get("level", "OFF")
                 logging_configuration["level"] = logging_level
@@ -726,6 +728,8 @@ class RestAPI(object):
                 https://docs.aws.amazon.com/AmazonCloudWatch/latest/logs/iam-access-control-overview-cwl.html
                 """
                 logging_configuration = params.get("loggingConfiguration", {})
+                if not isinstance(logging_configuration, dict):
+                    return aws_error("InvalidLoggingConfiguration"), 400
                 if logging_configuration:
                     # Explicitly set default to OFF if not present in request.
                     logging_level = logging_configuration.get("level", "OFF")
